@@ -7,7 +7,7 @@ use serde_json::Value;
 
 pub const META: PropMeta = PropMeta {
     level: "exploration",
-    rule: "Mp4Config x TrackConfig values in their documented domains (any brands/minor version, timescales >= 1, any u16 dimensions, SPS >= 4 bytes / any PPS, every AudioObjectType x SampleFreqIndex x ChannelConfig - the full 42x13x7 product is enumerated -, any bitrate, any three lowercase letters) x short generated sample histories; after mux -> demux every accessor is compared with the configuration (independent AVC profile table, exact integer arithmetic for the one-tick duration tolerance). Non-trivial = the configuration differs from every Default/From preset in >= 2 fields. Distinct = hash of the configuration + history.",
+    rule: "Mp4Config x TrackConfig values in their documented domains (any brands/minor version, timescales >= 1, any u16 dimensions, SPS >= 4 bytes / any PPS, every AudioObjectType x SampleFreqIndex x ChannelConfig - the full 42x13x7 product is enumerated -, any bitrate, any three lowercase letters) x short generated sample histories, with configurations add_track must refuse interleaved (the accepted tracks must read back as ids 1..k); after mux -> demux every accessor is compared with the configuration (independent AVC profile table, exact integer arithmetic for the one-tick duration tolerance). Non-trivial = the configuration differs from every Default/From preset in >= 2 fields. Distinct = hash of the configuration + history.",
     assumptions: &["AVC profile table written from ITU-T H.264 Annex A (66 +/- constraint_set1, 77, 88, 100)", "durations are kept below 2^50 movie ticks so that the reader's millisecond/microsecond conversion itself cannot overflow (that overflow is C06's subject)"],
 };
 
@@ -65,10 +65,19 @@ pub fn oracle(ctx: &mut Ctx, case: &MuxCase) -> Check {
     if let Some(f) = mux::first_panic(&run) {
         return Err(f);
     }
-    if run.calls.iter().any(|(n, o)| matches!(o, CallOutcome::Err(_)) && n != "write_sample") {
+    // calls the documented domain says are accepted must be accepted (else the history is outside
+    // the property); configurations the muxer must refuse (zero timescale, parameter sets that do
+    // not fit) may be interleaved anywhere and must leave no trace: the accepted tracks keep the
+    // ids 1..k in the order they were added
+    let v = mux::judge_calls(case, &run);
+    if v.rejected_valid || v.accepted_invalid || run.calls.iter().any(|(n, o)| matches!(o, CallOutcome::Err(_)) && n != "write_sample" && n != "add_track") {
         ctx.count("muxer-rejected-config(outside-property)");
         return Ok(());
     }
+    if v.had_rejected_track {
+        ctx.count("history:with-refused-add_track-calls");
+    }
+    let accepted: Vec<&mux::MTrack> = case.tracks.iter().filter(|t| mux::track_config(t).is_some() && mux::expect_accept(t)).collect();
     let reader = crate::oracle::open(&bytes)?;
     // file level
     ensure!(reader.major_brand().value == case.major, "c14:major_brand", "major brand {:?} != {:?}", reader.major_brand().value, case.major);
@@ -76,9 +85,9 @@ pub fn oracle(ctx: &mut Ctx, case: &MuxCase) -> Check {
     let cb: Vec<[u8; 4]> = reader.compatible_brands().iter().map(|b| b.value).collect();
     ensure!(cb == case.compat, "c14:compatible_brands", "compatible brands differ");
     ensure!(reader.timescale() == case.timescale, "c14:movie-timescale", "movie timescale {} != {}", reader.timescale(), case.timescale);
-    ensure!(reader.tracks().len() == case.tracks.len(), "c14:track-count", "{} tracks read, {} configured", reader.tracks().len(), case.tracks.len());
+    ensure!(reader.tracks().len() == accepted.len(), "c14:track-count", "{} tracks read, {} configured", reader.tracks().len(), accepted.len());
     let mut max_exact_ms_num: (u128, u128) = (0, 1); // max over tracks of sum_dur*1000/ts as a fraction
-    for (i, t) in case.tracks.iter().enumerate() {
+    for (i, t) in accepted.iter().enumerate() {
         let id = i as u32 + 1;
         let Some(tr) = reader.tracks().get(&id) else { fail!("c14:missing-track", "track {} missing", id) };
         let (ts, lang) = if t.preset { (1000u32, "und".to_string()) } else { (t.timescale, t.language.clone()) };
@@ -214,6 +223,7 @@ pub fn run(ctx: &mut Ctx) {
                     timescale: 1000 + my as u32,
                     tracks: vec![MTrack { kind: MKind::Aac { profile: p, freq_index: f, chan: c, bitrate }, timescale: 44100 - (my as u32 % 7), language: "eng".into(), preset: false }],
                     ops: vec![mux::MOp { track: 1, size: 5, dur: 1024, cts: 0, sync: true }, mux::MOp { track: 1, size: 6, dur: 1024, cts: 0, sync: true }],
+                    sink: 0,
                 };
                 let res = oracle(ctx, &case);
                 ctx.judge(&case, res);
@@ -238,6 +248,7 @@ pub fn run(ctx: &mut Ctx) {
                 timescale: 600,
                 tracks: vec![MTrack { kind: MKind::Avc { width: 1920, height: 1080, sps: vec![0x67, p, compat as u8, 0x28, 0xaa], pps: vec![0x68, 1] }, timescale: 90000, language: "fra".into(), preset: false }],
                 ops: vec![mux::MOp { track: 1, size: 9, dur: 3000, cts: 0, sync: true }],
+                sink: 0,
             };
             let res = oracle(ctx, &case);
             ctx.judge(&case, res);
@@ -245,7 +256,7 @@ pub fn run(ctx: &mut Ctx) {
     }
     ctx.stage("random");
     let cases = ctx.pick(300_000u32, 2_000_000u32) / ctx.nshards;
-    ctx.run_prop(mux::mux_history_bits(4, 12, 0.0, 50), cases, |ctx, c| oracle(ctx, c));
+    ctx.run_prop(mux::mux_history_bits(4, 12, 0.04, 50), cases, |ctx, c| oracle(ctx, c));
 }
 
 pub fn replay(ctx: &mut Ctx, _stage: &str, case: &Value) -> Check {
